@@ -22,7 +22,6 @@ import (
 	hostpkg "github.com/samaritan-proxy/samaritan/host"
 	loggerpkg "github.com/samaritan-proxy/samaritan/logger"
 	"github.com/samaritan-proxy/samaritan/pb/config/hc"
-	"github.com/samaritan-proxy/samaritan/proc/internal/hc/tcp"
 	"github.com/samaritan-proxy/samaritan/proc/internal/log"
 )
 
@@ -107,7 +106,7 @@ func (m *Monitor) ResetHealthCheck(config *hc.HealthCheck) error {
 	if !sameChecker {
 		checker, err := newChecker(config)
 		if err != nil {
-			m.checker = tcp.NewChecker()
+			// the update is rejected: the configuration in force, and its checker, stay.
 			return err
 		}
 		m.checker = checker
